@@ -553,6 +553,92 @@ def gen_selfappend_case(rng):
     return Case(ops, {"stream": "selfappend"})
 
 
+def gen_subview_case(rng):
+    """Views whose surroundings would change the answer: the cursor under test is a sub-view of a larger array (or of a
+    buffer), and the bytes right before / behind it are chosen so that an implementation that looks outside the view
+    gives a different, property-observable result (a match completed behind the view, a longer number, a separator that
+    is not there, …).  The same inputs are also run on an exact-size copy (ASan red zone right behind the view)."""
+    ops = []
+    kind = rng.choice(["find", "find", "find", "starts", "eq", "split", "trim", "read", "compare", "parse", "misc"])
+    pre = rbytes(rng, rng.choice([0, 1, 3]), "csv")
+    view = post = b""
+    follow = []
+    if kind == "find":
+        nl = rng.randint(2, 5)
+        needle = bytes(rng.choice(b"abcdef") for _ in range(nl))
+        k = rng.randint(1, nl - 1)                       # needle bytes still inside the view
+        body = bytes(rng.choice(b"xyz,") for _ in range(rng.choice([0, 1, 4, 9])))
+        if rng.random() < 0.25:
+            body += needle                               # a complete earlier occurrence: the first one must be reported
+        view = body + needle[:k]
+        post = needle[k:] + rbytes(rng, rng.choice([0, 2]), "csv")
+        if len(view) < nl:
+            view = bytes(rng.choice(b"xyz") for _ in range(nl - len(view))) + view
+        follow = [f"cur_bytes c2 {hexs(needle)}", "find_exact c1 c2 c3",
+                  f"cur_bytes c2 {hexs(needle[:k])}", "find_exact c1 c2 c3", f"cur_bytes c2 {hexs(needle[:1])}", "find_exact c1 c2 c3"]
+    elif kind == "starts":
+        view = rbytes(rng, rng.choice([0, 1, 2, 4]), "alpha")
+        post = rbytes(rng, rng.choice([1, 2]), "alpha")
+        ic = rng.choice(["", "_ignore_case"])
+        follow = [f"cur_bytes c2 {hexs(view + post[:1])}", f"starts_with{ic} c1 c2", f"cur_bytes c2 {hexs(view.swapcase())}", f"starts_with{ic} c1 c2",
+                  f"cur_bytes c2 {hexs(view)}", f"starts_with{ic} c1 c2", f"starts_with{ic} c2 c1"]
+    elif kind == "eq":
+        view = rbytes(rng, rng.choice([0, 1, 2, 4]), "alpha")
+        post = rbytes(rng, rng.choice([1, 2]), "alpha").replace(b"\0", b"q")
+        ic = rng.choice(["", "_ignore_case"])
+        longer = view + post[:1]
+        follow = [f"cur_bytes c2 {hexs(longer)}", f"cur_eq{ic} c1 c2", f"array_eq{ic} c1 c2", f"cur_eq_c_str{ic} c1 {hexs(longer)}",
+                  f"array_eq_c_str{ic} c1 {hexs(view)}", f"string_eq_cursor{ic} {hexs(longer)} c1", f"string_eq_cursor{ic} {hexs(view)} c1",
+                  f"cur_bytes c2 {hexs(view)}", f"cur_eq{ic} c1 c2", "init b1 8", f"write b1 {hexs(longer[:8])} {len(longer[:8])}", f"cur_eq_buf{ic} c1 b1"]
+    elif kind == "split":
+        view = rbytes(rng, rng.choice([0, 1, 3, 6]), "csv")
+        post = rng.choice([b",", b",x", b"x,", b",,"])
+        pre = rng.choice([b"", b",", b"a,"])
+        follow = ["cur_null c3"] + ["next_split c1 2c c3"] * 5 + ["split_on_char c1 2c 8", f"split_on_char_n c1 2c {rng.randint(1, 3)} 8"]
+    elif kind == "trim":
+        pr = rng.choice(["isspace", "isdigit", "isalpha", "isalnum", "isxdigit"])
+        fill = {"isspace": b" \t", "isdigit": b"0123", "isalpha": b"abXY", "isalnum": b"a1Z9", "isxdigit": b"09afAF"}[pr]
+        other = {"isspace": b"x", "isdigit": b"x", "isalpha": b"1", "isalnum": b" ", "isxdigit": b"g"}[pr]
+        edge = bytes(rng.choice(fill) for _ in range(rng.choice([0, 1, 2])))
+        view = edge + bytes(rng.choice(other + fill) for _ in range(rng.choice([0, 1, 3]))) + (other if rng.random() < 0.6 else b"") + edge
+        pre = bytes(rng.choice(fill) for _ in range(rng.choice([1, 2])))
+        post = bytes(rng.choice(fill) for _ in range(rng.choice([1, 2])))
+        follow = [f"left_trim c1 {pr}", f"right_trim c1 {pr}", f"trim c1 {pr}", f"satisfies c1 {pr}"]
+    elif kind == "read":
+        w, opn = rng.choice([(1, "read_u8"), (2, "read_be16"), (3, "read_be24"), (4, "read_be32"), (8, "read_be64"), (4, "read_float_be32"),
+                             (8, "read_float_be64"), (2, "read_hex_u8")])
+        view = rbytes(rng, max(0, w - rng.choice([1, 1, 2])), "hexdigits")
+        post = rbytes(rng, 8, "hexdigits")
+        follow = [f"{opn} c1", f"read c1 {len(view) + 1}", f"advance c1 {len(view) + 1}", f"advance_nospec c1 {len(view) + 1}", "init b1 8",
+                  f"reserve b1 {len(view) + 1}", "read_and_fill_buffer c1 b1" if len(view) < 8 else "dump"]
+    elif kind == "compare":
+        view = rbytes(rng, rng.choice([0, 1, 3]), "alpha")
+        post = rbytes(rng, 2, "alpha")
+        follow = [f"cur_bytes c2 {hexs(view + post[:1])}", "compare_lexical c1 c2", "compare_lookup c1 c2", "compare_lookup c2 c1",
+                  f"cur_bytes c2 {hexs(view.swapcase())}", "compare_lookup c1 c2", "compare_lexical c1 c2"]
+    elif kind == "parse":
+        hexa = rng.random() < 0.5
+        view = rbytes(rng, rng.choice([1, 2, 5]), "hexdigits" if hexa else "digits")
+        post = rbytes(rng, rng.choice([1, 12]), "hexdigits" if hexa else "digits")
+        pre = rbytes(rng, rng.choice([0, 1]), "digits")
+        follow = [f"parse_u64{'_hex' if hexa else ''} c1", "parse_u64 c1", "satisfies c1 isdigit", "satisfies c1 isxdigit"]
+    else:
+        view = rbytes(rng, rng.choice([0, 1, 4]), "alpha")
+        post = rbytes(rng, 3, "alpha")
+        follow = ["hash_ignore_case c1", "init b1 4", "append b1 c1", "append_with_lookup b1 c1", "write_from_whole_cursor b1 c1", "init b2 0",
+                  "append_dynamic b2 c1", "init_copy_from_cursor b3 c1", "write_to_capacity b1 c1"]
+    big = pre + view + post
+    if rng.random() < 0.3 and 0 < len(big) <= 64:
+        ops += [f"init b0 {len(big)}", f"write b0 {hexs(big)} {len(big)}", f"cur_into c1 b0 {len(pre)} {len(view)}"]     # view into a buffer
+    else:
+        ops += [f"cur_bytes c0 {hexs(big)}", f"cur_sub c1 c0 {len(pre)} {len(view)}"]                                  # view into an array
+    ops += follow
+    # the same view as an exact-size block: the red zone starts at the first byte behind it
+    ops += [f"cur_bytes c1 {hexs(view)}"] + [o for o in follow if not o.startswith(("init ", "write b1", "reserve"))]
+    ops.append("dump")
+    return Case(ops, {"stream": "subview"})
+
+
 FORGED = ["HALF", "HALF+1", "MAX-1", "MAX"]
 
 
@@ -663,6 +749,7 @@ def gen_cases(rng, tier):
     # the three special streams first: the core reports at most five failing cases per run
     cases += [gen_forged_case(rng) for _ in range(2000 if quick else 20000)]
     cases += [gen_selfappend_case(rng) for _ in range(1000 if quick else 10000)]
+    cases += [gen_subview_case(rng) for _ in range(3000 if quick else 30000)]
     cases += [gen_random_case(rng, 40) for _ in range(14000 if quick else 150000)]
     cases += exhaustive_cases(2)          # every ordered pair of the small-scope alphabet, in both tiers
     if not quick:
@@ -935,6 +1022,22 @@ def oracle(case, lines):
                     hv = ((hv ^ x) * 0x100000001b3) & MAX
                 if int(res.split()[1]) != hv:
                     errs.append(f"{op}: hash {res.split()[1]} is not FNV-1a of the lower-cased bytes ({hv})")
+        # (L) find_exact: the first occurrence entirely inside the view, or NOT_FOUND (bytes around the view play no role)
+        if name == "find_exact":
+            ci, cf, co = st.c.get(int(t[1][1:])), st.c.get(int(t[2][1:])), after_c.get(int(t[3][1:]))
+            hay, nd = (st.cur_bytes(ci) if ci else None), (st.cur_bytes(cf) if cf else None)
+            if hay is not None and nd is not None and co is not None and ci["len"] <= HALF:
+                if len(nd) > len(hay):
+                    exp = "ERR AWS_ERROR_STRING_MATCH_NOT_FOUND"
+                elif len(nd) < 1:
+                    exp = "ERR AWS_ERROR_SHORT_BUFFER"
+                else:
+                    k = hay.find(nd)
+                    exp = "OK" if k >= 0 else "ERR AWS_ERROR_STRING_MATCH_NOT_FOUND"
+                    if k >= 0 and res == "OK" and co != dict(rid=ci["rid"], off=ci["off"] + k, len=ci["len"] - k):
+                        errs.append(f"{op}: first occurrence is at {k} of the view, result cursor {co}")
+                if res != exp:
+                    errs.append(f"{op}: needle {nd.hex()} in view {hay.hex()}: expected {exp}, got {res}")
         # commit what the implementation printed
         if name in ("cur_bytes", "cur_from_string") and after_c:
             s = int(t[1][1:])
@@ -1023,13 +1126,14 @@ MANIFEST = dict(
     design_ref="5.1",
     text=("Lean 4 theorems (no sorry, axioms propext/Quot.sound/Classical.choice only) over an executable model of byte_buf.c with "
           "an explicit heap of regions, one Lean function per API function (guards transcribed as written) and one `step` over an "
-          "inductive op language of 57 operation forms (every function of byte_buf.h except aws_hash_byte_cursor_ptr, plus init_from_file and the aws_string views). Fully proved, for every operation, every state and every operation sequence: "
+          "inductive op language of 58 operation forms (every function of byte_buf.h except aws_hash_byte_cursor_ptr, plus init_from_file and the aws_string views). Fully proved, for every operation, every state and every operation sequence: "
           "c01_inv/c01_inv_run (len <= cap, block length = cap, cap = 0 iff no block, distinct buffers own distinct blocks, cursors "
           "inside their block — preserved by every op and every op sequence); c01_writes_in_bounds (no access outside the object's "
           "bound); c01_fail_unchanged (failure => whole state unchanged, no side condition; cat: documented weaker form "
           "c01_cat_partial); c01_prefix_stable (bytes [0,len) kept by all non-resetting ops, across growth and self-aliasing); "
           "c01_secure_zero(_run,_exact) (a secure variant releases exactly the old block, all-zero over its old capacity); "
-          "c01_advance_guard, c01_nospec_eq, c01_nospec_mask, c01_write_guard; c01_split_spec, c01_split_n_spec, c01_trim_spec, c01_compare_spec, "
+          "c01_advance_guard, c01_nospec_eq, c01_nospec_mask, c01_write_guard; c01_split_spec, c01_split_n_spec, c01_find_exact_spec (first "
+          "occurrence entirely inside the view or NOT_FOUND), c01_trim_spec, c01_compare_spec, "
           "c01_parse_u64_spec; c01_init_from_file (source/file.c against a simulated file with any size / data / short-read "
           "schedule: valid result, failure => cleaned-up buffer, success => NUL terminator inside the capacity); c01_tolower_table / "
           "c01_hex_table over the two tables, and the bridge theorems c01_gen_nospec_mask, c01_gen_predicates, c01_gen_guards, "
